@@ -23,4 +23,5 @@ impl Bitstr {
 //@use bitstr.fns Bitstr::substr assumed
 //@use bitstr.fns Bitstr::bits_range assumed
 //@use bitstr.fns Bitstr::append assumed
+//@use bitstr.fns Bitstr::invert assumed
 }
